@@ -24,8 +24,12 @@ PixelOk(r, k) == LET v == r.ref[k] IN
    ELSE InBand(r, v) \/ (r.pix[k] = 1) = (Key(v) < 0)
 ValueOk(r, k) == ~r.perfect \/ InBand(r, r.ref[k]) \/ SameZ(r.val[k], r.ref[k])
 
+(* the screen-to-world matrix of the image size is the documented mapping (centre to the origin, y flipped, the shortest   *)
+(* axis of the region spans -1 .. +1), computed by the recorder from the documentation alone                             *)
+S2W(r) == IF r.s2w_ok THEN {} ELSE {"screen-to-world"}
+
 Fails(r) ==
-  IF ~r.ok THEN {"no-image"} ELSE
+  IF ~r.ok THEN {"no-image"} \cup S2W(r) ELSE S2W(r) \cup
   IF Len(r.pix) # r.w * r.h \/ Len(r.ref) # r.w * r.h THEN {"size"} ELSE
      (IF \A k \in 1..Len(r.pix) : PixelOk(r, k) THEN {} ELSE {"inside"})
   \cup (IF \A k \in 1..Len(r.pix) : ValueOk(r, k) THEN {} ELSE {"value"})
